@@ -6,7 +6,8 @@
 //!   `B <fmt> <N> ; d0 d1 ...`
 //!   `Z <op> <fmt> <k> ; a flat (2 per frame) ; b flat ; amp0 amp1`
 //! fmt (V, B): 0 u8, 1 i16, 2 f32 (bit patterns), 3 I24 (inner), 4 u64
-//! fmt (Z):    0 [i32; 2], 1 [f32; 2] (bit patterns), 2 [u8; 2]
+//! fmt (Z):    0 [i32; 2], 1 [f32; 2] (bit patterns), 2 [u8; 2], 3 f32 (a bare sample as a
+//!             one-channel frame: one value per frame, amp = one value)
 //! op: 0 equilibrium, 1 map_in_place, 2 zip_map_in_place, 3 write, 4 add_in_place,
 //!     5 add_in_place_with_amp_per_channel
 //!
@@ -352,6 +353,21 @@ fn op_case(op: i64, fmt: i64, k: i64, g: &Vec<Vec<i64>>) -> String {
                 4 => dasp_slice::add_in_place(&mut a[..], &bb[..]),
                 5 => dasp_slice::add_in_place_with_amp_per_channel(&mut a[..], &bb[..], am),
                 _ => panic!("op {} not available for f32 frames", op),
+            });
+            format!("{};{};{}", obs(5, &before), status(st), obs(5, &enc(&a)))
+        }
+        3 => {
+            let mut a: Vec<f32> = af.iter().map(|&x| f32::from_bits(x as u32)).collect();
+            let bb: Vec<f32> = bf.iter().map(|&x| f32::from_bits(x as u32)).collect();
+            let am: f32 = f32::from_bits(amp[0] as u32);
+            let enc = |a: &Vec<f32>| a.iter().map(|&f| c32(f)).collect::<Vec<i64>>();
+            let before = enc(&a);
+            let st = catch(|| match op {
+                0 => dasp_slice::equilibrium(&mut a[..]),
+                3 => dasp_slice::write(&mut a[..], &bb[..]),
+                4 => dasp_slice::add_in_place(&mut a[..], &bb[..]),
+                5 => dasp_slice::add_in_place_with_amp_per_channel(&mut a[..], &bb[..], am),
+                _ => panic!("op {} not available for mono f32 frames", op),
             });
             format!("{};{};{}", obs(5, &before), status(st), obs(5, &enc(&a)))
         }
